@@ -1,0 +1,162 @@
+//go:build verif
+
+package tensor
+
+// C19: cloning and ownership of metadata slices (comment-only).
+// apEq: two access patterns describe the same layout by value.
+
+//@ spec apEq(a, b) bool = len(a.shape) == len(b.shape) && len(a.strides) == len(b.strides) && (forall i :: 0 <= i && i < len(a.shape) ==> a.shape[i] == b.shape[i]) && (forall i :: 0 <= i && i < len(a.strides) ==> a.strides[i] == b.strides[i]) && a.fin == b.fin && a.o == b.o && a.Δ == b.Δ
+//@ spec apEqLayout(a, b) bool = len(a.shape) == len(b.shape) && len(a.strides) == len(b.strides) && (forall i :: 0 <= i && i < len(a.shape) ==> a.shape[i] == b.shape[i]) && (forall i :: 0 <= i && i < len(a.strides) ==> a.strides[i] == b.strides[i]) && a.o == b.o && a.Δ == b.Δ
+//@ spec apSep(a, b) bool = (len(a.shape) == 0 || (a.shape.arr != b.shape.arr && a.shape.arr != b.strides.arr)) && (len(a.strides) == 0 || (a.strides.arr != b.shape.arr && a.strides.arr != b.strides.arr))
+
+//@ spec apSepCap(a, b) bool = (cap(a.shape) == 0 || (a.shape.arr != b.shape.arr && a.shape.arr != b.strides.arr)) && (cap(a.strides) == 0 || (a.strides.arr != b.shape.arr && a.strides.arr != b.strides.arr))
+
+//@ func tensor.Shape.Clone
+//@   props C19
+//@   ensures [content] len(result) == len(s) && (forall i :: 0 <= i && i < len(s) ==> result[i] == s[i])
+//@   ensures [fresh] fresh(result) && gh("lib", result.arr) == 1
+//@   ensures [src] unchanged(s)
+//@   assigns nothing
+
+//@ func tensor.AP.Clone
+//@   props C19
+//@   requires [lens] len(ap.strides) <= cap(ap.shape)
+//@   ensures [content] apEq(retVal, ap)
+//@   ensures [fresh] fresh(retVal.shape) && fresh(retVal.strides) && retVal.shape.arr != retVal.strides.arr
+//@   ensures [owned] gh("lib", retVal.shape.arr) == 1 && gh("lib", retVal.strides.arr) == 1
+//@   ensures [src] unchanged(ap.shape) && unchanged(ap.strides)
+//@   assigns nothing
+
+//@ func tensor.AP.CloneTo
+//@   props C19
+//@   requires [sep] ap != dest && apSepCap(dest, ap) && (cap(dest.shape) == 0 || cap(dest.strides) == 0 || dest.shape.arr != dest.strides.arr)
+//@   ensures [content] apEq(dest, ap)
+//@   ensures [no_alias] apSep(dest, ap)
+//@   ensures [origin] (dest.shape.arr == old(dest.shape.arr) || fresh(dest.shape)) && (dest.strides.arr == old(dest.strides.arr) || fresh(dest.strides))
+//@   ensures [src] unchanged(ap.shape) && unchanged(ap.strides) && ap.shape == old(ap.shape) && ap.strides == old(ap.strides)
+//@   assigns dest.shape, dest.strides, dest.fin, dest.o, dest.Δ, whole(dest.shape), whole(dest.strides)
+
+// ---- Dense.Clone: the clone shares no metadata slice with its source ----
+// element storage and engine calls are outside the metadata argument: trusted frames only.
+
+//@ func tensor.Dense.makeArray
+//@   trusted
+//@   ensures [fresh] fresh(t.Raw)
+//@   assigns t.array, t.flag
+
+//@ func tensor.copyDense
+//@   trusted
+//@   params dst src
+//@   requires [no_mask_yet] cap(asptr("tensor.Dense", dst).mask) == 0
+//@   ensures [mask_fresh] isnil(asptr("tensor.Dense", dst).mask) || fresh(asptr("tensor.Dense", dst).mask)
+//@   assigns whole(asptr("tensor.Dense", dst).Raw), asptr("tensor.Dense", dst).mask
+
+//@ func tensor.Dense.Clone
+//@   props C19
+//@   requires [engine] !isnil(t.e)
+//@   requires [lens] len(t.old.strides) <= cap(t.old.shape)
+//@   requires [dims] forall i :: 0 <= i && i < len(t.shape) ==> t.shape[i] >= 0
+//@   ensures [ap] apEqLayout(asptr("tensor.Dense", result).AP, t.AP)
+//@   ensures [ap_sep] apSep(asptr("tensor.Dense", result).AP, t.AP) && apSep(asptr("tensor.Dense", result).AP, t.old)
+//@   ensures [old] !apIsZero(t.old) ==> apEq(asptr("tensor.Dense", result).old, t.old)
+//@   ensures [old_sep] !apIsZero(t.old) ==> apSep(asptr("tensor.Dense", result).old, t.old) && apSep(asptr("tensor.Dense", result).old, t.AP)
+//@   ensures [src] unchanged(t.shape) && unchanged(t.strides) && unchanged(t.old.shape) && unchanged(t.old.strides) && t.shape == old(t.shape) && t.strides == old(t.strides) && t.old.shape == old(t.old.shape) && t.old.strides == old(t.old.strides)
+//@   ensures [fresh] fresh(asptr("tensor.Dense", result))
+//@   assigns nothing
+
+// ---- SafeT: a transposed copy with its own storage and metadata ----
+
+//@ func tensor.recycledDense
+//@   trusted
+//@   params dt shape opts
+//@   ensures [fresh] fresh(result) && fresh(result.Raw)
+//@   ensures [storage] len(result.Raw) == prodInts(shape, len(shape)) * rsize(dt) && rkind(result.t) == rkind(dt)
+//@   ensures [clean] apIsZero(result.old) && isnil(result.old.shape) && isnil(result.old.strides) && isnil(result.transposeWith) && cap(result.mask) == 0
+//@   assigns nothing
+
+//@ func tensor.Dense.SafeT
+//@   props C03 C19
+//@   mode rank t.shape, t.strides
+//@   let n = len(t.shape)
+//@   cases len(axes) : 0, n
+//@   requires [dims] forall i :: 0 <= i && i < n ==> t.shape[i] >= 1
+//@   requires [nonneg] forall i :: 0 <= i && i < len(axes) ==> axes[i] >= 0
+//@   requires [sep] t.shape.arr != t.strides.arr && axes.arr != t.shape.arr && axes.arr != t.strides.arr
+//@   requires [valid_vec] isVec(t.shape) && len(axes) == n ==> isPermN(axes, n)
+//@   ensures [storage_span] err == nil ==> len(retVal.Raw) == (len(t.Raw) / rsize(t.t)) * rsize(t.t)
+//@   ensures [perm] err == nil && n >= 2 && !isVec(t.shape) && !allOnes(t.shape) && !(len(axes) == n && isIdentityN(axes, n)) ==> len(retVal.shape) == n && len(retVal.strides) == n && (forall i :: 0 <= i && i < n ==> retVal.shape[i] == t.shape[(len(axes) == 0 ? n - 1 - i : axes[i])] && retVal.strides[i] == t.strides[(len(axes) == 0 ? n - 1 - i : axes[i])])
+//@   ensures [old] err == nil ==> apEq(retVal.old, t.AP) && apSep(retVal.old, t.AP)
+//@   ensures [axes_copied] err == nil && len(axes) > 0 ==> retVal.transposeWith.arr != axes.arr
+//@   ensures [tw_owned] err == nil ==> fresh(retVal.transposeWith) && gh("lib", retVal.transposeWith.arr) == 1
+//@   ensures [caller_axes_kept] len(axes) > 0 ==> gh("lib", axes.arr) == old(gh("lib", axes.arr))
+//@   ensures [source] unchanged(t.shape) && unchanged(t.strides) && unchanged(axes) && t.shape == old(t.shape) && t.strides == old(t.strides)
+//@   ensures [fresh] err == nil ==> fresh(retVal)
+//@   assigns nothing
+
+// ---- SetShape: the argument is copied, the previous metadata goes back to the pool ----
+
+//@ func tensor.AP.SetShape
+//@   props C13 C19
+//@   requires [own] libOwnedOrNil(ap.shape) && libOwnedOrNil(ap.strides)
+//@   requires [sep] (isnil(ap.shape) || ap.shape.arr != ap.strides.arr) && (len(s) == 0 || (s.arr != ap.shape.arr && s.arr != ap.strides.arr))
+//@   requires [dims] forall i :: 0 <= i && i < len(s) ==> s[i] >= 0
+//@   ensures [locked] old(ap.fin) ==> ap.shape == old(ap.shape) && ap.strides == old(ap.strides) && unchanged(ap.shape) && unchanged(ap.strides)
+//@   ensures [scalar] !old(ap.fin) && len(s) == 0 ==> len(ap.shape) == 0 && len(ap.strides) == 0
+//@   ensures [scalar_arrays] !old(ap.fin) && len(s) == 0 ==> (ap.shape.arr == old(ap.shape.arr) || (fresh(ap.shape) && gh("lib", ap.shape.arr) == 1)) && ap.strides.arr == old(ap.strides.arr) && gh("lib", old(ap.shape.arr)) == old(gh("lib", ap.shape.arr)) && gh("lib", old(ap.strides.arr)) == old(gh("lib", ap.strides.arr))
+//@   ensures [shape] !old(ap.fin) && len(s) > 0 ==> len(ap.shape) == len(s) && (forall i :: 0 <= i && i < len(s) ==> ap.shape[i] == s[i])
+//@   ensures [strides_row_major] !old(ap.fin) && len(s) > 0 && (ap.o & ColMajor) == DataOrder(0) ==> len(ap.strides) == len(s) && (forall i :: 0 <= i && i < len(s) ==> ap.strides[i] == sufprod(ap.shape, i+1))
+//@   ensures [copied] !old(ap.fin) && len(s) > 0 ==> fresh(ap.shape) && gh("lib", ap.shape.arr) == 1 && ap.shape.arr != s.arr
+//@   ensures [strides_owned] !old(ap.fin) && len(s) > 0 ==> isnil(ap.strides) || (fresh(ap.strides) && gh("lib", ap.strides.arr) == 1)
+//@   ensures [caller_kept] unchanged(s) && (len(s) > 0 ==> gh("lib", s.arr) == old(gh("lib", s.arr)))
+//@   assigns ap.shape, ap.strides, whole(ap.shape), whole(ap.strides), gh("lib", ap.shape.arr), gh("lib", ap.strides.arr)
+
+//@ func tensor.Dense.parentTensor
+//@   trusted
+//@   ensures [nil_iff] isnil(result) <==> t.viewOf == uintptr(0)
+//@   assigns nothing
+
+//@ func tensor.Dense.sanity
+//@   trusted
+//@   assigns nothing
+
+// ---- reuseCheckShape: the reuse tensor takes a copy of the expected shape; nothing it refers to afterwards is in the pool ----
+
+//@ func tensor.reuseCheckShape
+//@   props C19
+//@   config devirt tensor.DenseTensor=*tensor.Dense
+//@   let r = asptr("tensor.Dense", reuse)
+//@   requires [dyn] typeis(reuse, "*tensor.Dense")
+//@   requires [own] libOwnedOrNil(r.shape) && libOwnedOrNil(r.strides) && libOwnedOrNil(r.old.shape) && libOwnedOrNil(r.old.strides) && libOwnedOrNil(r.transposeWith)
+//@   requires [sep] (isnil(r.shape) || r.shape.arr != r.strides.arr) && (isnil(r.old.shape) || (r.old.shape.arr != r.old.strides.arr && r.old.shape.arr != r.shape.arr && r.old.shape.arr != r.strides.arr)) && (isnil(r.old.strides) || (r.old.strides.arr != r.shape.arr && r.old.strides.arr != r.strides.arr))
+//@   requires [tw_sep] isnil(r.transposeWith) || (r.transposeWith.arr != r.shape.arr && r.transposeWith.arr != r.strides.arr && r.transposeWith.arr != r.old.shape.arr && r.transposeWith.arr != r.old.strides.arr)
+//@   requires [caller_shape] len(s) > 0 ==> gh("lib", s.arr) == 0
+//@   requires [dims] forall i :: 0 <= i && i < len(s) ==> s[i] >= 0
+//@   ensures [caller_kept] unchanged(s) && (len(s) > 0 ==> gh("lib", s.arr) == 0)
+//@   ensures [not_retained] len(s) > 0 ==> r.shape.arr != s.arr && r.strides.arr != s.arr
+//@   ensures [shape] err == nil && len(s) > 0 ==> len(r.shape) == len(s) && (forall i :: 0 <= i && i < len(s) ==> r.shape[i] == s[i])
+//@   ensures [live_shape] err == nil ==> libOwnedOrNil(r.shape)
+//@   ensures [live_strides] err == nil ==> libOwnedOrNil(r.strides)
+//@   ensures [live_old] err == nil ==> libOwnedOrNil(r.old.shape) && libOwnedOrNil(r.old.strides)
+//@   ensures [no_dangling_axes] err == nil ==> libOwnedOrNil(r.transposeWith)
+//@   assigns r.AP, r.old, r.viewOf, r.transposeWith, whole(r.shape), whole(r.strides), whole(r.old.shape), whole(r.old.strides), whole(r.transposeWith), gh("lib", r.shape.arr), gh("lib", r.strides.arr), gh("lib", r.old.shape.arr), gh("lib", r.old.strides.arr), gh("lib", r.transposeWith.arr)
+
+// ---- RollAxis: the permutation it builds is its own; what it borrows it gives back exactly once ----
+
+//@ spec rollPerm(axis, start, i) int = i == start ? axis : (i < start ? (i < axis ? i : i + 1) : (i <= axis ? i - 1 : i))
+
+//@ func tensor.Dense.RollAxis
+//@   props C03 C19
+//@   mode rank t.shape, t.strides
+//@   config frame any
+//@   let n = len(t.shape)
+//@   requires [untransposed] apIsZero(t.old) && isnil(t.transposeWith)
+//@   requires [dims] forall i :: 0 <= i && i < n ==> t.shape[i] >= 1
+//@   requires [sep] t.shape.arr != t.strides.arr
+//@   ensures [bad_axis] !(0 <= axis && axis < n) ==> err != nil
+//@   ensures [bad_start] 0 <= axis && axis < n && !(0 <= start && start <= n) ==> err != nil
+//@   ensures [identity] err == nil && 0 <= axis && axis < n && (axis == start || axis + 1 == start) ==> retVal == t && t.shape == old(t.shape) && t.strides == old(t.strides)
+//@   ensures [unsafe_is_self] err == nil && !safe ==> retVal == t
+//@   ensures [safe_keeps_source] safe ==> t.shape == old(t.shape) && t.strides == old(t.strides) && unchanged(t.shape) && unchanged(t.strides)
+//@   ensures [tw_owned] !isnil(t.transposeWith) ==> gh("lib", t.transposeWith.arr) == 1
+//@   ensures [result_tw_owned] err == nil && !isnil(retVal) && !isnil(retVal.transposeWith) ==> gh("lib", retVal.transposeWith.arr) == 1
+//@   loop 0 invariant [fill] 0 <= i && i <= dims && dims == n && len(axes) == n && fresh(axes) && gh("lib", axes.arr) == 1 && err == nil && isnil(retVal) && (forall j :: 0 <= j && j < i ==> axes[j] == j)
